@@ -147,6 +147,179 @@ def parse_batch(payload):
 
 
 # ------------------------------------------------------------------------------------------------
+# conversion stage: convert_expression_string_to_predicate observed directly (no repository needed)
+
+_TY = {"int": "TyInt", "string": "TyStr", "float": "TyReal", "bool": "TyBool", "datetime": "TyTime", "timespan": "TySpan"}
+
+
+def _lit_json(v):
+    """a bind / literal value as the model's `value`, or None when Expr.v has no such value"""
+    import astropy.time
+    from fractions import Fraction
+    import math
+
+    from lsst.daf.butler import Timespan
+    from lsst.daf.butler.time_utils import TimeConverter
+
+    if isinstance(v, bool):
+        return None
+    if isinstance(v, int):
+        return ["int", v]
+    if isinstance(v, float):
+        if not math.isfinite(v):
+            return None
+        f = Fraction(v)
+        return ["real", f.numerator, f.denominator]
+    if isinstance(v, str):
+        return ["str", v]
+    if isinstance(v, astropy.time.Time):
+        return ["time", int(TimeConverter().astropy_to_nsec(v))]
+    if isinstance(v, Timespan):
+        return ["span", int(v.nsec[0]), int(v.nsec[1])]
+    return None
+
+
+def _bind_value(j):
+    """JSON -> bind value: {"time": iso, "scale": s} is an astropy Time, lists stay lists"""
+    import astropy.time
+
+    if isinstance(j, dict) and "time" in j:
+        return astropy.time.Time(j["time"], scale=j.get("scale", "tai"))
+    if isinstance(j, list):
+        return [_bind_value(x) for x in j]
+    return j
+
+
+class _Cols:
+    def __init__(self):
+        self.ids = {}
+
+    def cid(self, key: str) -> int:
+        return self.ids.setdefault(key, len(self.ids))
+
+
+def _resolve(visitor, name: str, cols: _Cols):
+    """what the real visitIdentifier returns for a (lower-cased) name, as the model's `option rid`"""
+    from lsst.daf.butler import InvalidQueryError
+    from lsst.daf.butler.queries import _expression_strings as X
+    from lsst.daf.butler.queries.tree import Predicate
+
+    try:
+        r = visitor.visitIdentifier(name, None)
+    except InvalidQueryError:
+        return None
+    except Exception as e:  # noqa: BLE001
+        return ["exc", type(e).__name__]
+
+    def col_key(expr):
+        et = expr.expression_type
+        if et == "dimension_key":
+            return f"{expr.dimension.name}"
+        if et == "dimension_field":
+            return f"{expr.element.name}.{expr.field}"
+        if et == "dataset_field":
+            return f"{expr.dataset_type}:{expr.field}"
+        return None
+
+    if isinstance(r, X._Null):
+        return ["null"]
+    if isinstance(r, X._Sequence):
+        vals = [_lit_json(getattr(x, "value", None)) for x in r.value]
+        return ["other"] if any(v is None for v in vals) else ["seq", vals]
+    if isinstance(r, Predicate):
+        ref = X._get_boolean_column_reference(r)
+        key = col_key(ref) if ref is not None else None
+        return ["col", cols.cid(key), "TyBool"] if key is not None else ["other"]
+    if isinstance(r, X._ColExpr):
+        expr = r.value
+        et = expr.expression_type
+        key = col_key(expr)
+        if key is not None:
+            ty = _TY.get(expr.column_type)
+            return ["col", cols.cid(key), ty] if ty and ty != "TyBool" else ["other"]
+        if et == "unary" and expr.operator in ("begin_of", "end_of"):
+            k2 = col_key(expr.operand)
+            if k2 is not None and expr.operand.column_type == "timespan":
+                return ["begin" if expr.operator == "begin_of" else "end", cols.cid(k2)]
+            return ["other"]
+        if hasattr(expr, "value") and et in ("int", "float", "string", "datetime", "timespan"):
+            v = _lit_json(expr.value)
+            return ["lit", v] if v is not None else ["other"]
+        return ["other"]
+    return ["other"]
+
+
+def _names(t, out):
+    from lsst.daf.butler.registry.queries.expressions.parser import exprTree as E
+
+    if isinstance(t, (E.Identifier, E.BindName)):
+        out.add(t.name.lower())
+    for attr in ("lhs", "rhs", "operand", "expr", "ra", "dec"):
+        c = getattr(t, attr, None)
+        if isinstance(c, E.Node):
+            _names(c, out)
+    for attr in ("values", "items", "args"):
+        for c in getattr(t, attr, None) or ():
+            if isinstance(c, E.Node):
+                _names(c, out)
+
+
+def conv_batch(payload):
+    """payload: {"strings": [...], "bind": {...}, "dimensions": [...]} -> per string: time table, resolution of every
+    name in the tree (observed from the real visitIdentifier) and what convert_expression_string_to_predicate did."""
+    from lsst.daf.butler import DimensionUniverse, InvalidQueryError
+    from lsst.daf.butler.queries._expression_strings import _ConversionVisitor, convert_expression_string_to_predicate
+    from lsst.daf.butler.queries._identifiers import IdentifierContext
+    from lsst.daf.butler.registry.queries.expressions.parser import parse_expression
+    from lsst.daf.butler.registry.queries.expressions.parser.parserYacc import _parseTimeString
+    from lsst.daf.butler.time_utils import TimeConverter
+
+    universe = DimensionUniverse()
+    bind = {k: _bind_value(v) for k, v in (payload.get("bind") or {}).items()}
+    context = IdentifierContext(universe.conform(payload["dimensions"]), frozenset(payload.get("datasets") or ()), bind)
+    times, cols = _Times(), _Cols()
+    out = []
+    for s in payload["strings"]:
+        rec = {"s": s}
+        tt, tns = {}, {}
+        for m in _TIME_CAND.finditer(s):
+            txt = m.group(1)
+            if txt in tt:
+                continue
+            try:
+                tval = _parseTimeString(txt)
+                tt[txt] = times.vid(tval)
+                tns[tt[txt]] = int(TimeConverter().astropy_to_nsec(tval))
+            except ValueError:
+                tt[txt] = None
+            except Exception:  # noqa: BLE001
+                tt[txt] = None
+        rec["times"], rec["tns"] = tt, tns
+        res = {}
+        try:
+            tree = parse_expression(s)
+        except Exception:  # noqa: BLE001
+            tree = None
+        if tree is not None:
+            names = set()
+            _names(tree, names)
+            visitor = _ConversionVisitor(context, universe)
+            for n in sorted(names):
+                res[n] = _resolve(visitor, n, cols)
+        rec["res"] = res
+        try:
+            convert_expression_string_to_predicate(s, context=context, universe=universe)
+            rec["obs"] = "accept"
+        except InvalidQueryError:
+            rec["obs"] = "invalid"
+        except Exception as e:  # noqa: BLE001
+            rec["obs"] = "other"
+            rec["fail"] = _where_fail(e)
+        out.append(rec)
+    return {"results": out, "bound": sorted(context.bind.keys())}
+
+
+# ------------------------------------------------------------------------------------------------
 
 def _populate(butler):
     import astropy.time
